@@ -3,6 +3,20 @@ use anemo_sim::scen;
 use anemo_sim::world::Tier;
 use std::time::Duration;
 
+/// The monotonic clock seam (see `anemo_sim::vclock`): this definition takes the place of libc's
+/// for every caller linked into this binary, std's `Instant::now()` included.
+#[no_mangle]
+pub unsafe extern "C" fn clock_gettime(clk: libc::clockid_t, ts: *mut libc::timespec) -> libc::c_int {
+    if matches!(clk, libc::CLOCK_MONOTONIC | libc::CLOCK_MONOTONIC_RAW | libc::CLOCK_MONOTONIC_COARSE | libc::CLOCK_BOOTTIME) {
+        if let Some(ns) = anemo_sim::vclock::virtual_monotonic_ns() {
+            (*ts).tv_sec = (ns / 1_000_000_000) as libc::time_t;
+            (*ts).tv_nsec = (ns % 1_000_000_000) as libc::c_long;
+            return 0;
+        }
+    }
+    libc::syscall(libc::SYS_clock_gettime, clk as libc::c_long, ts) as libc::c_int
+}
+
 fn usage() -> ! {
     eprintln!("usage: sim check <ID> [--tier quick|thorough] [--seed N] [--runs N] [--workers N] [--scenario NAME]\n       sim replay <file>\n       sim selftest [--n N] [--workers N] [--print] [--only ID]\n       sim list");
     std::process::exit(2)
